@@ -244,6 +244,19 @@ def run_design(case, ctx):
                     ctx.violation('split-span-still-too-long', f'{uid}: {max(lens)} > {max_len}')
                 if type(pieces[0][0]).__name__ != e['type']:
                     ctx.violation('split-changed-fibre-type', f'{uid}: {e["type"]} -> {type(pieces[0][0]).__name__}')
+                # the spans are pieces of the same fibre: what scales with length scales with each piece's own length
+                # (latency = L n / c with the group index 1.468 of FiberParams, PMD = pmd_coef sqrt(L))
+                for p, _ in pieces:
+                    want_lat = p.params.length * 1.468 / 299792458.0
+                    if abs(p.params.latency - want_lat) > 1e-9 * want_lat:
+                        ctx.violation('split-span-keeps-a-length-dependent-value-of-the-whole-fibre',
+                                      f'{p.uid}: latency {p.params.latency!r} for {p.params.length} m (expected {want_lat!r})')
+                        break
+                    want_pmd = p.params.pmd_coef * p.params.length ** 0.5
+                    if abs(p.pmd - want_pmd) > 1e-9 * max(want_pmd, 1e-30):
+                        ctx.violation('split-span-keeps-a-length-dependent-value-of-the-whole-fibre',
+                                      f'{p.uid}: pmd {p.pmd!r} for {p.params.length} m (expected {want_pmd!r})')
+                        break
             else:
                 continue  # exactly at the limit: not judged
             # intrinsic loss (alpha*L + lumped; connectors are per span and excluded) conserved
